@@ -183,4 +183,25 @@ vx_all_loop(Template, G, Cap, St) :-
 vx_all_loop(_, _, _, done).
 
 % markers seen by the worker's output callback (fault / interrupt arming)
-vx_mark(M) :- put_char('\x1d\'), write(M), put_char('\x1d\'), flush_output(user_output).
+% (one write/1 call, so that the marker reaches the callback in one piece)
+vx_mark(M) :- vx_marker(M, A), write(A), flush_output(user_output).
+vx_marker('ARM', '\x1d\ARM\x1d\').
+vx_marker('DISARM', '\x1d\DISARM\x1d\').
+vx_marker('W0', '\x1d\W0\x1d\').
+vx_marker('W1', '\x1d\W1\x1d\').
+
+% fault / interrupt enumeration (C30, C31): the counters are armed by the
+% worker when it sees the ARM marker and disarmed at DISARM; W0 / W1 bracket
+% the workload proper. The result is reported with O records.
+vx_flt(G) :-
+    vx_mark('ARM'),
+    catch(( vx_mark('W0'), call(G), vx_mark('W1') ), B, true),
+    vx_mark('DISARM'),
+    ( var(B) -> vx_obs(completed) ; vx_obs(ball(B)) ).
+
+% the same with all solutions of G collected as instances of T
+vx_flt(T, G) :-
+    vx_mark('ARM'),
+    catch(( vx_mark('W0'), findall(T, G, L), vx_mark('W1') ), B, true),
+    vx_mark('DISARM'),
+    ( var(B) -> vx_obs(completed(L)) ; vx_obs(ball(B)) ).
